@@ -869,7 +869,11 @@ class StubsStringGenerator:
         inner_indentations: str,
         already_defined_names: set[str],
     ) -> str:
-        superclass_class = self._get_class_in_package(superclass)
+        try:
+            superclass_class = self._get_class_in_package(superclass)
+        except LookupError:
+            # A private class of another library (e.g. argparse._StoreAction): its members are not part of the API data
+            return ""
 
         # Methods
         superclass_methods_text, existing_names = self._create_class_method_string(
